@@ -158,6 +158,15 @@ func c07Coq(c c07Case, o parseObs) (string, bool) {
 }
 
 // ---- body generators ----
+// operations whose variables the client may fill with values of the wrong JSON type (the gateway does not coerce
+// variable values; whatever it does with them, it must answer)
+var c07VarQueries = []string{
+	"query($v: Boolean) { __type(name: \"Query\") { fields(includeDeprecated: $v) { name } } }",
+	"query($v: Boolean) { __schema { types { enumValues(includeDeprecated: $v) { name } } } }",
+	"query($v: String!) { __type(name: $v) { name kind } }",
+	"query($v: Boolean!) { __typename @skip(if: $v) }",
+}
+
 var c07Queries = []string{"{ __typename }", "{ nosuchfield }", "{ q0_0 { id } ", "query A { __typename } query B { __typename }", "{ __schema { queryType { name } } }", "", " ", "# only a comment"}
 
 func genJSONBody(rng *rand.Rand, validQueries []string) (string, string) {
@@ -181,6 +190,10 @@ func genJSONBody(rng *rand.Rand, validQueries []string) (string, string) {
 	}
 	obj := func() string {
 		var ms []string
+		if rng.Intn(8) == 0 {
+			qv, _ := json.Marshal(c07VarQueries[rng.Intn(len(c07VarQueries))])
+			return fmt.Sprintf("{\"query\": %s, \"variables\": {\"v\": %s}}", qv, val())
+		}
 		qs, _ := json.Marshal(q())
 		switch rng.Intn(10) {
 		case 0:
